@@ -383,6 +383,46 @@ theorem clone_reads_source (s s' : St) (a b : Dir) (v : Nat) (r : List Row)
   exact (readVersion_ok_iff s' b v r).mpr
     ⟨fs, h2, readFiles_mono fs r (fun f _ r hf => (cloneOp_ext h).1.2 f r hf) hf⟩
 
+/-- the operations that only add objects or move tags (a failed one changes nothing) -/
+inductive AddOp where
+  | write (d : Dir) (overwrite : Bool) (rows : List Row)
+  | clone (a b : Dir) (v : Nat)
+  | tagSet (t : Str) (tgt : RefTarget)
+  | tagDel (t : Str)
+
+def applyAdd (s : St) : AddOp → St
+  | .write d o rows => match writeOp s d o rows with
+    | some (s', _) => s'
+    | none => s
+  | .clone a b v => match cloneOp s a b v with
+    | some s' => s'
+    | none => s
+  | .tagSet t tgt => { s with tags := set s.tags t tgt }
+  | .tagDel t => { s with tags := del s.tags t }
+
+theorem applyAdd_ext (s : St) (op : AddOp) : Ext s (applyAdd s op) := by
+  cases op with
+  | write d o rows =>
+    simp only [applyAdd]
+    cases h : writeOp s d o rows with
+    | none => exact Ext.refl s
+    | some p => obtain ⟨s', v⟩ := p; exact (writeOp_ext h).1
+  | clone a b v =>
+    simp only [applyAdd]
+    cases h : cloneOp s a b v with
+    | none => exact Ext.refl s
+    | some s' => exact (cloneOp_ext h).1
+  | tagSet t tgt => exact ⟨fun _ _ h => h, fun _ _ h => h⟩
+  | tagDel t => exact ⟨fun _ _ h => h, fun _ _ h => h⟩
+
+/-- over ANY history of writes (to any branch, main or the clone), branch creations, shallow clones and tag
+operations, every version that was readable keeps reading the same rows -/
+theorem history_isolated (ops : List AddOp) (s : St) (d : Dir) (v : Nat) (r : List Row)
+    (h : readVersion s d v = .ok r) : readVersion (ops.foldl applyAdd s) d v = .ok r := by
+  induction ops generalizing s with
+  | nil => exact h
+  | cons op ops ih => exact ih (applyAdd s op) (readVersion_ext (applyAdd_ext s op) h)
+
 /-- removing a directory leaves a version readable, with the same rows, when neither its manifest nor any file it
 lists lies below that directory -/
 theorem remove_isolated (s : St) (p : List Str) (d : Dir) (v : Nat) (r : List Row) (fs : List FileRef)
@@ -535,5 +575,10 @@ theorem cleanup_isolated_counterexample : ¬ cleanup_isolated_full := by
 
 -- non-vacuity: cleanup of `dev` in that state leaves main readable (main lists no file of `dev`)
 example : readVersion (cleanupStore cleanupState (branchDir (some "dev".toList))) [] 2 = .ok [[some 9]] := by decide
+
+-- non-vacuity of history_isolated: overwrite main, branch from the new version, write on the branch — main@1 unchanged
+example : readVersion ([AddOp.write [] true [[some 9]], .clone [] (branchDir (some "b".toList)) 2,
+      .write (branchDir (some "b".toList)) false [[some 3]]].foldl applyAdd cleanupState) [] 1
+    = .ok [[some 1], [some 2]] := by decide
 
 end LanceModel.C09
